@@ -1,3 +1,4 @@
+use std::collections::HashMap;
 use std::fs;
 
 use async_lsp::lsp_types::Url;
@@ -8,6 +9,7 @@ use ide::file_system::{FileId, FilePath, FileSet, FileSystem};
 pub struct Vfs {
     file_set: FileSet,
     next_file_id: u32,
+    open_documents: HashMap<FilePath, String>,
 }
 
 impl Vfs {
@@ -17,6 +19,10 @@ impl Vfs {
 
     pub fn file_for_path(&self, path: &FilePath) -> Option<FileId> {
         self.file_set.file_for_path(path)
+    }
+
+    pub fn set_open_document(&mut self, path: FilePath, text: String) {
+        self.open_documents.insert(path, text);
     }
 
     fn alloc_file_id(&mut self) -> FileId {
@@ -44,6 +50,10 @@ impl FileSystem for Vfs {
     }
 
     fn read_content(&self, file_path: &FilePath) -> Option<String> {
+        if let Some(text) = self.open_documents.get(file_path) {
+            return Some(text.clone());
+        }
+
         let Ok(content) = fs::read_to_string(&file_path.0) else {
             tracing::info!("failed to read file: file_path={file_path:?}");
             return None;
